@@ -10,6 +10,9 @@ T2 (correspondence; the Coq side is evaluated by vm_compute on the same inputs):
               (x hook subsets; iteration order = order of the wraps() calls observed)   vs  run_wrapped
   e2e       : mloda.run_all(..., function_extender={...}) on a generated chain of 2-3 feature groups in SYNC and
               THREADING; per-call logs of recording extenders vs run_calls; results with / without extenders
+  e2e_modes : the same configurations in SYNC, THREADING and MULTIPROCESSING (chain, and a two-object plan); the wrapped
+              calls of MULTIPROCESSING run in forked worker processes whose activations come back through a file
+              (harness/mp_obs.py); vs run_calls and run_calls_in (per mode), per-copy invocation counters, and each other
 Strict: the model follows the code repaired by /repo commit 50d7ec2 and is proved equal to the ideal computation
 (C20_chain_ideal, C20_plan_ideal); every disagreement with it is a VIOLATION, and independently of the model every
 wrapped call under a chain is checked in Python for: wrapped function executed exactly once, every extender of the
@@ -21,16 +24,21 @@ from __future__ import annotations
 import itertools
 import json
 import logging
+import os
 import random
 import re
 import threading
+import time
 from typing import Any, Dict, List, Optional, Sequence, Tuple
 
 from lib import vlib
 from lib.vlib import cq_bool, cq_list, cq_nat, cq_z
+from harness import mp_obs
 
 LEVEL = "proof"
-REQ = ["MV.Model.Extender", "MV.Spec.ExtenderSpec"]
+REQ = ["MV.Model.Modes", "MV.Model.Extender", "MV.Spec.ExtenderSpec"]
+MODES3 = ["SYNC", "THREADING", "MULTIPROCESSING"]
+CQ_MODE = {"SYNC": "MSync", "THREADING": "MThreading", "MULTIPROCESSING": "MMultiprocessing"}
 
 PRIOS = [50, None, 150]          # None = attribute unset -> Extender.priority default 100
 BEHS = ["pass", "rb", "ra"]
@@ -74,6 +82,15 @@ Definition fails_of (f : option call) (c : call) : bool := match f with Some d =
 Definition caseE := ((list extender * list bool * option call) * (list (call * list event) * bool))%type.
 Definition mE (c : caseE) := match fst c with (o, st, f) => run_calls o (fails_of f) (plan_calls 0 st) end.
 Definition chkE_model (c : caseE) := run_eqb (snd c) (mE c).
+(* plan level with the execution mode: (mode, the caller's set order, per step the iteration order of the set held by the
+   step's compute-framework object, steps, failing call), observed *)
+Definition caseM := ((pmode * list extender * list (nat * list extender) * list bool * option call)
+                     * (list (call * list event) * bool))%type.
+Definition copy_of (l : list (nat * list extender)) (d : list extender) (s : nat) : list extender :=
+  match find (fun p => Nat.eqb (fst p) s) l with Some p => snd p | None => d end.
+Definition mM (c : caseM) :=
+  match fst c with (m, o, cp, st, f) => run_calls_in m o (copy_of cp o) (fails_of f) (plan_calls 0 st) end.
+Definition chkM_model (c : caseM) := run_eqb (snd c) (mM c).
 """
 
 
@@ -95,7 +112,8 @@ class _Recorder:
         self.activations: List[dict] = []
 
     def begin(self, fg: str, kind: str) -> dict:
-        act = {"fg": fg, "kind": kind, "events": [], "wraps": [], "thread": threading.current_thread().name}
+        act = {"fg": fg, "kind": kind, "events": [], "wraps": [], "counts": [],
+               "thread": threading.current_thread().name, "pid": os.getpid()}
         with self.lock:
             self.activations.append(act)
         stack = getattr(self.tl, "stack", None)
@@ -106,6 +124,9 @@ class _Recorder:
 
     def end(self, act: dict) -> None:
         self.tl.stack.pop()
+        if mp_obs.in_child():
+            # a worker PROCESS of a MULTIPROCESSING run: this recorder is a forked copy, ship the activation to the parent
+            mp_obs.emit({"ev": "act", "act": act})
 
     def _cur(self) -> Optional[dict]:
         stack = getattr(self.tl, "stack", None)
@@ -114,6 +135,14 @@ class _Recorder:
     def ev(self, e: Tuple) -> None:
         act = self._cur()
         (self.loose if act is None else act["events"]).append(e)
+        if act is None and mp_obs.in_child():
+            mp_obs.emit({"ev": "loose", "e": list(e)})
+
+    def counted(self, i: int, obj: int, n: int) -> None:
+        """extender i, living at address obj of this process, has now been invoked n times (its own counter)"""
+        act = self._cur()
+        if act is not None:
+            act["counts"].append([i, obj, n])
 
     def wraps_called(self, i: int) -> None:
         act = self._cur()
@@ -184,6 +213,7 @@ def _rec_class() -> Any:
             self.beh = beh
             self.hook_names = list(hooks)
             self._h = hashv
+            self.count = 0          # STATE: number of invocations of THIS object (copies made by pickling start from the value they were copied with)
             if prio is not None:
                 if via_setter:
                     self.priority = prio
@@ -201,6 +231,8 @@ def _rec_class() -> Any:
             return {hk[h] for h in self.hook_names}
 
         def __call__(self, func: Any, *a: Any, **k: Any) -> Any:
+            self.count += 1
+            REC.counted(self.i, id(self), self.count)
             REC.ev(("enter", self.i))
             if self.beh == "rb":
                 raise RuntimeError(f"{SENTINEL_MSG_EXT}{self.i}")
@@ -282,10 +314,22 @@ def termB(c: dict) -> str:
             f"({cq_trace(c['trace'])}, {cq_res(c['res'])}))")
 
 
+def termM(c: dict) -> str:
+    by_id = {x["i"]: x for x in c["exts"]}
+    order = [by_id[i] for i in c["order"]]
+    n = c["nsteps"] + (1 if c.get("shape") == "two" else 0)
+    steps = cq_list([cq_bool(k > 0) for k in range(c["nsteps"])] + (["false"] if c.get("shape") == "two" else []))
+    cp = cq_list(f"({cq_nat(int(k))}, {cq_list(cq_ext(by_id[i]) for i in o)})" for k, o in c["step_orders"].items() if int(k) < n)
+    fail = "None" if c["fail_at"] is None else f"(Some ({cq_nat(c['fail_at'][0])}, {CQ_KIND[c['fail_at'][1]]}))"
+    log = cq_list(f"(({cq_nat(s)}, {CQ_KIND[k]}), {cq_trace(t)})" for s, k, t in c["log"])
+    return (f"(({CQ_MODE[c['mode']]}, {cq_list(cq_ext(x) for x in order)}, {cp}, {steps}, {fail}), "
+            f"({log}, {cq_bool(c['failed'])}))")
+
+
 def termE(c: dict) -> str:
     by_id = {x["i"]: x for x in c["exts"]}
     order = [by_id[i] for i in c["order"]]
-    steps = cq_list(cq_bool(k > 0) for k in range(c["nsteps"]))
+    steps = cq_list([cq_bool(k > 0) for k in range(c["nsteps"])] + (["false"] if c.get("shape") == "two" else []))
     fail = "None" if c["fail_at"] is None else f"(Some ({cq_nat(c['fail_at'][0])}, {CQ_KIND[c['fail_at'][1]]}))"
     log = cq_list(f"(({cq_nat(s)}, {CQ_KIND[k]}), {cq_trace(t)})" for s, k, t in c["log"])
     return f"(({cq_list(cq_ext(x) for x in order)}, {steps}, {fail}), ({log}, {cq_bool(c['failed'])}))"
@@ -454,7 +498,7 @@ def e2e_groups() -> List[type]:
 
     def mk(k: int) -> type:
         name = f"G20_{k}"
-        src = None if k == 0 else f"G20_{k - 1}"
+        src = None if k in (0, 9) else f"G20_{k - 1}"      # G20_9: a second, independent root (its own object / worker)
 
         def maybe_fail(kind: str) -> None:
             REC.ev(("call",))
@@ -483,48 +527,126 @@ def e2e_groups() -> List[type]:
             d["input_data"] = classmethod(lambda cls: DataCreator({name}))
         else:
             d["input_features"] = lambda self, options, feature_name, _s=src: {Feature(_s)}
-        return type(name, (FeatureGroup,), d)
+        # module attribute harness.dynclasses.G20_k: MULTIPROCESSING pickles every step (with its feature group class, by
+        # reference) through the worker's command queue
+        return mp_obs.register_class(type(name, (FeatureGroup,), d), name)
 
-    _groups.extend(mk(k) for k in range(3))
+    _groups.extend(mk(k) for k in (0, 1, 2, 9))
     return _groups
 
 
-def run_e2e(exts: List[dict], nsteps: int, mode: str, fail_at: Optional[Tuple[int, str]], hash_seed: int) -> dict:
+_SINK: List[Any] = []
+
+
+def _sink() -> Any:
+    if not _SINK:
+        _SINK.append(mp_obs.Sink(str(vlib.BUILD / "C20" / "mp" / f"acts_{os.getpid()}.jsonl")))
+    return _SINK[0]
+
+
+KF_UNPICKLABLE = "C20-unpicklable-extender-rejected-outside-sync"
+
+
+def run_e2e(exts: List[dict], nsteps: int, mode: str, fail_at: Optional[Tuple[int, str]], hash_seed: int,
+            shape: str = "chain", attach_lock: bool = False) -> dict:
+    """One mloda.run_all with recording extenders.  shape "chain": G20_0 <- .. <- G20_{nsteps-1} on one compute-framework
+    object; "two": the chain plus the independent root G20_9 (a second object: its own extender copies, and in
+    MULTIPROCESSING its own worker process; counted as step number nsteps; no failing call in this shape, the two
+    objects' calls interleave).  MULTIPROCESSING: the wrapped calls (and the extender copies with
+    their counters) live in forked worker processes; their activations come back through the sink file and are merged
+    with whatever the parent itself recorded (nothing, if the wrapped calls all run in the children)."""
     from mloda.user import mloda, Feature, PluginCollector, ParallelizationMode
     from mloda_plugins.compute_framework.base_implementations.pyarrow.table import PyArrowTable
     groups = e2e_groups()
     hv = slot_hashes(random.Random(hash_seed), len(exts))
     objs = {make_ext(x["i"], x["prio"], x["beh"], x["hooks"], hv[j], via_setter=bool(x["i"] % 2)) for j, x in enumerate(exts)}
+    if attach_lock:
+        for o_ in objs:
+            o_.lock = threading.Lock()       # ordinary state of a thread-safe extender; cannot be pickled
     _E2E["fail_at"] = fail_at
     REC.reset()
     exc = None
+    exc_msg = ""
     value = None
+    status = "ok"
+    n_timeouts = 0
+    kw: Dict[str, Any] = {}
+    sink = None
+    if mode == "MULTIPROCESSING":
+        from harness.orch import flight_server
+        kw["flight_server"] = flight_server()
+        sink = _sink()
+        sink.reset()
+    mp_obs.CUR["sink"] = sink
+
+    def call() -> Any:
+        return mloda.run_all([Feature(f"G20_{nsteps - 1}")] + ([Feature("G20_9")] if shape == "two" else []),
+                             compute_frameworks={PyArrowTable},
+                             plugin_collector=PluginCollector.enabled_feature_groups(set(groups)),
+                             parallelization_modes={ParallelizationMode[mode]},
+                             function_extender=objs if exts is not None else None, **kw)
+    t0 = time.time()
     try:
-        res = mloda.run_all([Feature(f"G20_{nsteps - 1}")], compute_frameworks={PyArrowTable},
-                            plugin_collector=PluginCollector.enabled_feature_groups(set(groups)),
-                            parallelization_modes={ParallelizationMode[mode]},
-                            function_extender=objs if exts is not None else None)
-        value = [r.to_pydict() for r in res]
+        if mode == "MULTIPROCESSING":
+            def again() -> None:
+                REC.reset()
+                sink.reset()
+            status, res, n_timeouts = mp_obs.watchdog_retry(call, 30.0, again)
+            if status == "raised":
+                raise res
+            if status == "hang":
+                exc = "HANG"
+        else:
+            res = call()
+        if status == "ok":
+            value = sorted(json.dumps(r.to_pydict(), sort_keys=True) for r in res)
     except Exception as e:  # noqa: BLE001
         exc = type(e).__name__
+        exc_msg = str(e)[-160:]
     finally:
         _E2E["fail_at"] = None
+        mp_obs.CUR["sink"] = None
+    wall = time.time() - t0
     acts = list(REC.activations)
+    stray = [list(e) for e in REC.loose]
+    n_parent = len(acts)
+    pids = {os.getpid()} if acts else set()
+    if sink is not None:
+        for line in sink.read():
+            if line["ev"] == "act":
+                acts.append(line["act"])
+                pids.add(line["pid"])
+            elif line["ev"] == "loose":
+                stray.append(line["e"])
     log = []
     orders = []
+    step_orders: Dict[int, List[List[int]]] = {}
+    counts: Dict[str, List[int]] = {}      # "<extender>@<pid>:<address>" -> successive counter values
     for a in acts:
         m = re.fullmatch(r"G20_(\d)", a["fg"])
+        k = int(m.group(1)) if m else 99
+        k = nsteps if k == 9 else k
         if a["events"]:
-            log.append([int(m.group(1)) if m else 99, a["kind"], [list(e) for e in a["events"]]])
+            log.append([k, a["kind"], [list(e) for e in a["events"]]])
         if a["wraps"]:
             orders.append(a["wraps"])
+            step_orders.setdefault(k, []).append(a["wraps"])
+        for i, obj, n in a.get("counts", []):
+            counts.setdefault(f"{i}@{a.get('pid')}:{obj}", []).append(n)
+    if shape == "two":
+        log.sort(key=lambda e: e[0])       # stable: the calls of one step keep their observed order
     ids = sorted(x["i"] for x in exts)
     good = [o for o in orders if sorted(o) == ids]
     order = good[0] if good else [o.i for o in objs]
-    return {"level": "e2e", "exts": exts, "nsteps": nsteps, "mode": mode, "fail_at": list(fail_at) if fail_at else None,
+    return {"level": "e2e", "exts": exts, "nsteps": nsteps, "shape": shape, "mode": mode, "fail_at": list(fail_at) if fail_at else None,
             "hash_seed": hash_seed, "order": order, "orders_agree": all(o == order for o in orders),
-            "log": log, "failed": exc is not None, "exc": exc, "value": value, "stray": [list(e) for e in REC.loose],
-            "threads": len({a["thread"] for a in acts})}
+            "step_orders": {str(k): v[0] for k, v in sorted(step_orders.items()) if sorted(v[0]) == ids},
+            "step_orders_stable": all(all(o == v[0] for o in v) for v in step_orders.values()),
+            "log": log, "failed": exc is not None, "exc": exc, "value": value, "stray": stray,
+            "threads": len({(a.get("pid"), a["thread"]) for a in acts}),
+            "processes": len(pids), "acts_in_parent": n_parent, "acts_in_children": len(acts) - n_parent,
+            "counts": counts, "caller_counts": sorted([o.i, o.count] for o in objs), "wall": round(wall, 3),
+            "timeouts": n_timeouts, "exc_msg": exc_msg, "attach_lock": attach_lock}
 
 
 def e2e_specs(rng: random.Random, n_cases: int) -> List[Tuple[List[dict], int, Optional[Tuple[int, str]]]]:
@@ -562,7 +684,7 @@ def describe(c: dict) -> str:
     if c["level"] == "e2e":
         per = "; ".join(f"step{s}.{k}: calls={sum(1 for e in t if e[0] == 'call')} enter={[e[1] for e in t if e[0] == 'enter']}"
                         for s, k, t in c["log"])
-        return (f"run_all mode={c['mode']} steps={c['nsteps']} fail_at={c['fail_at']} extenders="
+        return (f"run_all mode={c['mode']} shape={c.get('shape', 'chain')} steps={c['nsteps']} fail_at={c['fail_at']} extenders="
                 f"{[(x['i'], prio_val(x['prio']), x['beh'], x['hooks']) for x in c['exts']]} set order {c['order']}: "
                 f"failed={c['failed']} ({c['exc']}); {per}")
     t = c["trace"]
@@ -624,8 +746,12 @@ def run(rep: vlib.Reporter, tier: str, seed: int) -> None:
         "try/except, fallback; code after /repo fix 50d7ec2), "
         "ComputeFramework.get_function_extender and the three run_* wrappers; tied by correspondence (T2) on the inputs "
         "listed under coverage",
-        "recording extenders (harness/c20.py: Rec20) are deterministic, stateless and pass arguments through unchanged; "
+        "recording extenders (harness/c20.py: Rec20) are deterministic and pass arguments through unchanged; their only state is an "
+        "invocation counter (per object: outside SYNC every compute-framework object works on unpickled copies); "
         "calling a function twice is modelled as using its trace twice",
+        "MULTIPROCESSING: activations are recorded inside the forked worker processes by the same class-level wrappers (start "
+        "method fork, checked) and appended to a file the parent reads after the run; held / run_calls_in (Model/Extender.v) "
+        "model which extender set a compute-framework object holds per mode, the per-step iteration orders are observed",
         "except Exception catches every exception raised by the generated extenders / wrapped functions (RuntimeError); a "
         "recording extender calls through at most once and never swallows the wrapped function's exception",
         "observation: per-thread context set by harness-side wrappers around ComputeFramework.run_calculate_feature / "
@@ -655,7 +781,7 @@ def run(rep: vlib.Reporter, tier: str, seed: int) -> None:
         nbad, nchain = 0, 0
         for c in cases:
             msgs = []
-            if level == "e2e":
+            if c["level"] == "e2e":
                 for s_, k, t in c["log"]:
                     m = chain_exts(c, k)
                     failing = c["fail_at"] is not None and tuple(c["fail_at"]) == (s_, k)
@@ -749,6 +875,135 @@ def run(rep: vlib.Reporter, tier: str, seed: int) -> None:
     dist["e2e_results_changed"] = changed
     rep.add("distribution", dist)
 
+    # ---- (D) the same extender configurations under every execution mode: SYNC / THREADING / MULTIPROCESSING
+    # (wrapped calls of MULTIPROCESSING run in forked worker processes; their activations are shipped back through a file
+    #  and merged), judged by the same Coq checker chkE_model as (C), by the mode-aware chkM_model (run_calls_in over the
+    #  iteration orders the objects actually held), by the direct property check, and against each other
+    t_d = time.time()
+    drng = random.Random(seed * 104729 + 2020)
+    specs_d = e2e_specs(drng, 600 if big else 40)
+    base_d: Dict[Tuple[str, int, str], Any] = {}
+    for shape in ("chain", "two"):
+        for nsteps in (2, 3):
+            for mode in MODES3:
+                b = run_e2e([], nsteps, mode, None, 0, shape)
+                base_d[(shape, nsteps, mode)] = b["value"]
+                if b["failed"] or b["value"] is None:
+                    violation(f"modes-baseline:{shape}:{nsteps}:{mode}", "run without extenders failed: " + describe(b), b)
+            if len({json.dumps(base_d[(shape, nsteps, m)]) for m in MODES3}) != 1:
+                violation(f"modes-baseline-differs:{shape}:{nsteps}", f"results without extenders differ between modes: "
+                          f"{[base_d[(shape, nsteps, m)] for m in MODES3]}", {"level": "baseline", "shape": shape, "nsteps": nsteps})
+    cd: List[dict] = []
+    trios: List[Dict[str, dict]] = []
+    for k, (exts, nsteps, fail_at) in enumerate(specs_d):
+        shape = "two" if k % 3 == 2 else "chain"
+        if shape == "two" and any(len(m_) == 1 and m_[0]["beh"] != "pass" for m_ in ([x for x in exts if h in x["hooks"]] for h in HOOKS)):
+            # a single (bare, unprotected) raising extender makes the run fail; what the OTHER object has done by then depends on
+            # the schedule -- the linear plan model covers failing runs on one object only
+            shape = "chain"
+        if shape == "two":
+            fail_at = None
+        hs = drng.getrandbits(30)
+        trio = {m: run_e2e(exts, nsteps, m, fail_at, hs, shape) for m in MODES3}
+        trios.append(trio)
+        cd.extend(trio[m] for m in MODES3)
+    handle("e2e_modes", cd, [termE(c) for c in cd], "E", "caseE")
+    direct("e2e_modes", cd)
+    bad_m, info_m = vlib.run_cases("C20", "e2e_modes_in", REQ, "chkM_model", [termM(c) for c in cd], case_type="caseM",
+                                   extra_defs=EXTRA, shard=350)
+    rep.coverage["e2e_modes"]["mode_aware_model"] = {**info_m, "disagreements": len(bad_m)}
+    for i in bad_m[:6]:
+        c = cd[i]
+        violation(f"e2e_modes_in:{json.dumps([c['exts'], c['mode'], c['shape'], c['nsteps'], c['fail_at'], c['step_orders']])}",
+                  "observed run differs from run_calls_in (the model of the run in this execution mode): " + describe(c), c)
+    per_mode: Dict[str, Dict[str, Any]] = {m: {"runs": 0, "failed_runs": 0, "wrapped_calls_logged": 0, "chain_calls": 0,
+                                               "with_raising_extender": 0, "two_objects": 0, "processes_max": 0,
+                                               "extender_copies_max": 0, "activations_in_children": 0, "activations_in_parent": 0,
+                                               "caller_object_counter_total": 0, "copies_counter_total": 0, "wall_s": 0.0}
+                                           for m in MODES3}
+    n_cross = 0
+    for c in cd:
+        pm = per_mode[c["mode"]]
+        pm["runs"] += 1
+        pm["failed_runs"] += int(c["failed"])
+        pm["wrapped_calls_logged"] += len(c["log"])
+        pm["chain_calls"] += sum(1 for s_, k_, t in c["log"] if len(chain_exts(c, k_)) >= 2)
+        pm["with_raising_extender"] += int(any(x["beh"] != "pass" for x in c["exts"]))
+        pm["two_objects"] += int(c["shape"] == "two")
+        pm["processes_max"] = max(pm["processes_max"], c["processes"])
+        pm["activations_in_children"] += c["acts_in_children"]
+        pm["activations_in_parent"] += c["acts_in_parent"]
+        pm["wall_s"] = round(pm["wall_s"] + c["wall"], 2)
+        pm["timeouts_not_reproduced_on_retry"] = pm.get("timeouts_not_reproduced_on_retry", 0) + int(c.get("timeouts", 0) == 1)
+        key = [c["exts"], c["nsteps"], c["shape"], c["mode"], c["fail_at"], c["hash_seed"]]
+        if any(len(chain_exts(c, k_)) >= 2 for k_ in HOOKS):
+            rep.nontrivial(("D", c["exts"], c["nsteps"], c["shape"], c["mode"], c["fail_at"], c["order"]))
+        if c["exc"] == "HANG":
+            violation(f"modes-hang:{json.dumps(key)}", "the run did not return within 30 s, twice: " + describe(c), c)
+            continue
+        if not c["failed"] and c["value"] != base_d[(c["shape"], c["nsteps"], c["mode"])]:
+            violation(f"modes-result:{json.dumps(key)}", "result with extenders differs from the result without: " + describe(c), c)
+        if c["stray"] or not c["orders_agree"] or not c["step_orders_stable"]:
+            violation(f"modes-context:{json.dumps(key)}", "extender events outside a run_* call, or the iteration order of the "
+                      "extender set varied within the run: " + describe(c), c)
+        # extender STATE: every copy counts its own invocations 1, 2, 3, ... (no invocation doubled or skipped on any
+        # copy) and all copies together were invoked exactly as often as the merged log shows the extender entered
+        enters: Dict[int, int] = {}
+        for s_, k_, t in c["log"]:
+            for e in t:
+                if e[0] == "enter":
+                    enters[e[1]] = enters.get(e[1], 0) + 1
+        per_ext: Dict[int, int] = {}
+        copies: Dict[int, int] = {}
+        for ck, seq in c["counts"].items():
+            i = int(ck.split("@")[0])
+            per_ext[i] = per_ext.get(i, 0) + len(seq)
+            copies[i] = copies.get(i, 0) + 1
+            if seq != list(range(1, len(seq) + 1)):
+                violation(f"modes-counter:{json.dumps(key)}", f"the invocation counter of extender copy {ck} ran {seq}, not 1..n: "
+                          + describe(c), c)
+        if per_ext != enters:
+            violation(f"modes-counter-sum:{json.dumps(key)}", f"invocations counted by the extender copies {per_ext} differ from the "
+                      f"enter events of the merged log {enters}: " + describe(c), c)
+        pm["extender_copies_max"] = max([pm["extender_copies_max"]] + list(copies.values()))
+        pm["copies_counter_total"] += sum(per_ext.values())
+        pm["caller_object_counter_total"] += sum(n for _, n in c["caller_counts"])
+        if c["mode"] == "SYNC" and {i: n for i, n in c["caller_counts"] if n} != enters:
+            violation(f"modes-caller-counter:{json.dumps(key)}", f"SYNC: the caller's extender objects counted {c['caller_counts']} "
+                      f"invocations, the log shows {enters}: " + describe(c), c)
+    for trio in trios:
+        a = trio["SYNC"]
+        for m in ("THREADING", "MULTIPROCESSING"):
+            b = trio[m]
+            if b["exc"] == "HANG" or a["order"] != b["order"]:
+                continue
+            n_cross += 1
+            if a["log"] != b["log"] or a["failed"] != b["failed"] or a["value"] != b["value"]:
+                violation(f"modes-differ:{json.dumps([a['exts'], a['nsteps'], a['shape'], a['fail_at'], a['hash_seed'], m])}",
+                          f"the same extender configuration behaves differently in SYNC and {m}: SYNC: " + describe(a) + f" -- {m}: " + describe(b), b)
+    # an extender that holds a lock (not picklable): outside SYNC the extender set is pickled into the manager process
+    wl: Dict[str, Any] = {}
+    xs = [{"i": 0, "prio": 50, "beh": "pass", "hooks": ["calc", "vout"]}, {"i": 1, "prio": None, "beh": "pass", "hooks": ["calc"]}]
+    ref_log = run_e2e(xs, 2, "SYNC", None, 3)["log"]          # the same two extenders without the lock
+    for mode in MODES3:
+        c = run_e2e(xs, 2, mode, None, 3, "chain", attach_lock=True)
+        rejected = c["failed"] and c["exc"] == "TypeError" and "pickle" in c["exc_msg"] and not c["log"]
+        wl[mode] = "rejected: " + c["exc_msg"][-60:] if rejected else ("failed: " + str(c["exc"]) if c["failed"] else "ok")
+        if rejected and mode != "SYNC":
+            rep.finding(KF_UNPICKLABLE, f"run_all in {mode} with an extender holding a threading.Lock raises {c['exc_msg']}", c)
+        elif c["failed"] or c["value"] != base_d[("chain", 2, mode)] or c["log"] != ref_log:
+            violation(f"modes-lock:{mode}", "extenders holding a lock: " + describe(c) + " " + c["exc_msg"], c)
+    rep.coverage["e2e_modes"]["extender_holding_a_lock"] = wl
+    rep.coverage["e2e_modes"]["per_mode"] = per_mode
+    rep.coverage["e2e_modes"]["cross_mode_comparisons"] = n_cross
+    rep.coverage["e2e_modes"]["process_start_method"] = mp_obs.start_method()
+    rep.coverage["e2e_modes"]["wall_s"] = round(time.time() - t_d, 1)
+    if mp_obs.start_method() != "fork":
+        violation("modes-start-method", f"worker processes start with {mp_obs.start_method()!r}: harness wrappers are not inherited, "
+                  "child-side observation is void", {"level": "start-method"})
+    from harness.orch import stop_flight_server
+    stop_flight_server()
+
     # ---- the two former known-finding witnesses (fixed by /repo 50d7ec2), replayed strictly on every run
     w = run_wrapped_real([{"i": 0, "prio": 50, "beh": "pass", "hooks": ["calc"]}, {"i": 1, "prio": None, "beh": "ra", "hooks": ["calc"]},
                           {"i": 2, "prio": 150, "beh": "pass", "hooks": ["calc"]}], "calc", True, 1)
@@ -766,7 +1021,9 @@ def run(rep: vlib.Reporter, tier: str, seed: int) -> None:
                     "returns/raises (exhaustive in thorough, n<=2 exhaustive + sample in quick); wrapped: sets of <= 4 extenders on a real "
                     "PyArrowTable through the three run_* methods, n<=2 full product with all 8 hook subsets x 3 kinds x returns/raises "
                     "in thorough, n=3 all (priority, behaviour, declares-the-hook) combinations, n=4 sample; e2e: run_all on a chain of "
-                    "2-3 generated groups, SYNC and THREADING. non-trivial = at least two extenders wrap the same call (a real chain)")
+                    "2-3 generated groups, SYNC and THREADING; e2e_modes: 40 (quick) / 600 (thorough) PRNG configurations, each in SYNC, "
+                    "THREADING and MULTIPROCESSING, two thirds on the chain, one third on a two-object plan. non-trivial = at least two "
+                    "extenders wrap the same call (a real chain)")
     for c in (ca[len(ca) // 2], cb[len(cb) // 2], ce[1], ce[-1]):
         rep.sample({k: v for k, v in c.items() if k != "value"})
     if not pr.ok and not found:
@@ -794,7 +1051,8 @@ def replay(path: str) -> int:
     elif r.get("level") == "wrapped":
         now = run_wrapped_real(r["exts"], r["kind"], r["wok"], r["hash_seed"])
     elif r.get("level") == "e2e":
-        now = run_e2e(r["exts"], r["nsteps"], r["mode"], tuple(r["fail_at"]) if r["fail_at"] else None, r["hash_seed"])
+        now = run_e2e(r["exts"], r["nsteps"], r["mode"], tuple(r["fail_at"]) if r["fail_at"] else None, r["hash_seed"],
+                      r.get("shape", "chain"), attach_lock=bool(r.get("attach_lock")))
     else:
         print(json.dumps(r, indent=1))
         return 0
